@@ -126,13 +126,39 @@ def c09_purity(tier, seed):
             family = name in ("evaluate", "evaluate_propositions", "assume")
             if before != after:
                 diff = _first_diff(before, after)
-                site = "AtLeast.assume:self.variable" if (family and names_compound and '"variable"' in diff) else name
+                # known finding D2: the ONLY thing that changed is the `variable` attribute of sub-propositions (decided on
+                # the structure of the snapshots, not on their text)
+                paths = _diff_paths(json.loads(before), json.loads(after))
+                only_variable = bool(paths) and all("variable" in p for p in paths)
+                site = "AtLeast.assume:self.variable" if (family and names_compound and only_variable) else name
                 _viol(r, f"c09.receiver-changed[{site}]", w, store=diff)
             if got != exp:
                 _viol(r, "c09.result-depends-on-history[%s]" % ("after AtLeast.assume:self.variable" if tainted else name), w)
             if family and names_compound:
                 tainted = True
     return _finish(r)
+
+
+def _diff_paths(a, b, path=()):
+    """key paths at which two snapshot structures differ"""
+    if type(a) is not type(b):
+        return [path]
+    if isinstance(a, dict):
+        out = []
+        for k in sorted(set(a) | set(b)):
+            if k not in a or k not in b:
+                out.append(path + (k,))
+            else:
+                out += _diff_paths(a[k], b[k], path + (k,))
+        return out
+    if isinstance(a, list):
+        if len(a) != len(b):
+            return [path]
+        out = []
+        for i, (x, y) in enumerate(zip(a, b)):
+            out += _diff_paths(x, y, path + (i,))
+        return out
+    return [] if a == b else [path]
 
 
 def _first_diff(a, b):
